@@ -151,6 +151,18 @@ def r2(ctx, facts, attrs):
             ok = ok and good
         ctx.ob("C12.R2b", "format:%s:source" % ename, ok,
                "%s takes its value from %s" % (ename, what if kind != "param" else "parameter #%d (%s)" % (what, f.rec["params"][what]["name"] if what < len(params) else "?")), fn=f)
+    # R2h: reused buffers are cleared on every path before they are read in this call
+    for buf in ("_formatted_named_args_buffer", "_formatted_log_message_buffer"):
+        uses = [c for c in f.calls() if c["k"] == "CXXMemberCallExpr" and is_this_field(call_obj(c), buf)]
+        clears = [c for c in uses if short(c["callee"]).endswith("::clear")]
+        reads = [c for c in uses if re.search(r"::(data|size|begin|end)$", short(c["callee"]))]
+        writes_ = [c for c in f.calls(r"^std::back_inserter") if any(is_this_field(x, buf) for x in walk(c))]
+        cp_ = npos(f, clears)
+        rp_ = npos(f, reads + writes_)
+        ok = bool(cp_) and bool(rp_) and all(g.dominates(cp_, p) for p in rp_)
+        ctx.ob("C12.R2h", "format:%s:cleared-before-use" % buf, ok,
+               "the reused buffer %s is cleared on every path before it is read or appended to for this statement (no text of the previous "
+               "statement leaks into the line)" % buf, fn=f)
     # Time: the timestamp parameter is what gets formatted
     tc = f.calls(r"TimestampFormatter::format_timestamp$")
     ok = bool(tc) and all([x.get("did") for x in walk(c["args"][0]) if x["k"] == "DeclRefExpr" and x.get("dk") == "ParmVar"] == [params[0]] for c in tc)
@@ -379,6 +391,29 @@ def r5(ctx, facts):
     adv = [n for n in m.walk() if n["k"] == "BinaryOperator" and n["op"] == "=" and var_ref(n["lhs"]) is not None and
            isnode(strip(n["rhs"], casts=True)) and strip(n["rhs"], casts=True)["k"] == "BinaryOperator" and strip(n["rhs"], casts=True)["op"] == "+" and const_val(strip(n["rhs"], casts=True)["rhs"]) == 1]
     ok = ok and bool(loops) and bool(adv)
+    # R5d: the search for the next newline starts exactly at the beginning of the unprocessed rest
+    starts = set()
+    for c in wc:
+        for x in walk(c["args"][5]):
+            if x["k"] == "BinaryOperator" and x["op"] == "+" and any(is_call(y, r"::data$") for y in walk(x["lhs"])) and var_ref(x["rhs"]) is not None:
+                starts.add(var_ref(x["rhs"]))
+    ok_d = len(starts) == 1
+    if ok_d:
+        sv = list(starts)[0]
+        init0 = const_val(m.var_decls().get(sv, {}).get("init")) == 0
+        asg_pos = npos(m, m.assignments_to_var(sv))
+        for fc in finds:
+            pos_arg = fc["args"][1] if len(fc["args"]) > 1 else None
+            defaulted = pos_arg is None or (isnode(strip(pos_arg)) and strip(pos_arg)["k"] == "CXXDefaultArgExpr") or (isnode(pos_arg) and pos_arg["k"] == "CXXDefaultArgExpr")
+            if defaulted or (const_val(pos_arg) == 0 and var_ref(pos_arg) is None):
+                # searching from 0 is right only while the line start is still 0
+                if not (init0 and not any(mg.exists_path([a], mg.positions(fc)) for a in asg_pos)):
+                    ok_d = False
+            elif var_ref(pos_arg) != sv:
+                ok_d = False
+    ctx.ob("C12.R5d", "_process_multi_line_message:search-from-line-start", ok_d,
+           "every search for the next newline starts at the first character of the not-yet-written rest (an empty line between two "
+           "newlines is found, no character is skipped)", fn=m)
     ctx.ob("C12.R5c", "_process_multi_line_message:one-statement-per-line", ok,
            "the message is cut at each newline, every piece is written as its own statement, scanning resumes after the newline", fn=m)
 
